@@ -1441,3 +1441,33 @@ Proof.
   cbn [fields_walk map]. rewrite IH. f_equal. unfold field_indices, field_indices_reset_per_vdata.
   change (1 =? 0) with false. cbv iota. destruct (chosen_indices 0 f chosen); reflexivity.
 Qed.
+
+(* ------------------------------------------------------------------------------------------ *)
+(** * Round 4 *)
+
+Lemma vdata_reads_same_layout_lemma : forall il, vs_buffers_same_layout il = true /\
+  dumpvd_read_il_ascii il = FULL_INTERLACE /\ dumpvd_read_il_binary il = FULL_INTERLACE.
+Proof. intros il. unfold vs_buffers_same_layout, vs_read_il1, vs_read_il2. rewrite Z.eqb_refl. repeat split. Qed.
+
+Lemma attribute_vdatas_listed_lemma : forall reserved_of_class,
+  (* is_reserved("") = false *) insert_vs_skips true false false = false /\
+  (* a lone Vdata with a non-empty class, reserved (Attr0.0) or not, is not skipped *)
+  insert_vs_skips true true reserved_of_class = false.
+Proof. intros r. unfold insert_vs_skips, insert_vs_reserved_test_needs_empty_class. simpl. split; reflexivity. Qed.
+
+Lemma sds_attr_info_test_lemma : forall t1 t2 l1 l2 c,
+  (sds_attr_info_differs t1 t2 l1 l2 c =? 0) = ((t1 =? t2) && (l1 =? l2) && (c =? 0)).
+Proof.
+  intros. unfold sds_attr_info_differs.
+  destruct (t1 =? t2), (l1 =? l2), (c =? 0); reflexivity.
+Qed.
+
+(** hence the positional attribute loop of the model tests exactly what the code tests *)
+Lemma attrs_loop_test_lemma : forall x y,
+  (negb (a_type x =? a_type y) || negb (Z.of_nat (length (a_vals x)) =? Z.of_nat (length (a_vals y))) || negb (zlist_eqb (a_name x) (a_name y)))
+  = negb (sds_attr_info_differs (a_type x) (a_type y) (Z.of_nat (length (a_vals x))) (Z.of_nat (length (a_vals y)))
+            (if zlist_eqb (a_name x) (a_name y) then 0 else 1) =? 0).
+Proof.
+  intros. rewrite sds_attr_info_test_lemma.
+  destruct (a_type x =? a_type y), (Z.of_nat (length (a_vals x)) =? Z.of_nat (length (a_vals y))), (zlist_eqb (a_name x) (a_name y)); reflexivity.
+Qed.
